@@ -266,6 +266,8 @@ pub struct Exec<'a> {
     protos: HashMap<String, TokenParser>,
     /// per constraint slot: (grammar bytes that were moved into the returned prompt, healed prompt bytes)
     pub prompt_grm_bytes: HashMap<SlotId, (Vec<u8>, usize)>,
+    /// last successful validate_tokens per slot: ((history, draft), count)
+    pub last_validate: HashMap<SlotId, ((Vec<TokenId>, Vec<TokenId>), usize)>,
     pub keep_alive: Vec<Box<std::sync::atomic::AtomicU32>>,
     /// did the injected fuel fault fire during the current operation?
     pub fuel_fired: bool,
@@ -286,6 +288,7 @@ impl<'a> Exec<'a> {
             step: 0,
             protos: HashMap::new(),
             prompt_grm_bytes: HashMap::new(),
+            last_validate: HashMap::new(),
             keep_alive: vec![],
             fuel_fired: false,
         }
@@ -463,6 +466,7 @@ impl<'a> Exec<'a> {
         let eos = self.ctx.world.eos();
         match p {
             Pick::Tok(t) => Some(*t),
+            Pick::ForcedSplit(_) => None,
             Pick::Eos => Some(eos),
             Pick::EosAlt(r) => {
                 let all = self.ctx.world.eos_all();
@@ -791,7 +795,7 @@ impl<'a> Exec<'a> {
             Op::CMaskOnly { h } => self.op_cstep(*h, None, true, false),
             Op::CCommitOnly { h, pick } => self.op_cstep(*h, Some(pick), false, true),
             Op::ChkText { h } => self.chk_text(*h),
-            Op::ParMask { hs, words, is_async } => self.op_par_mask(hs, words, *is_async),
+            Op::ParMask { hs, words, is_async, quirks } => self.op_par_mask(hs, words, *is_async, quirks),
             Op::CMaskInto { h, words } => self.op_cmask_into(*h, *words),
             Op::CFfInto { h, len } => self.op_cff_into(*h, *len),
             Op::CTokUtil { which, seed, len, via_clone } => self.op_ctok_util(*which, *seed, *len, *via_clone),
@@ -1196,10 +1200,44 @@ impl<'a> Exec<'a> {
 
     fn op_validate(&mut self, h: SlotId, picks: &[Pick]) -> VResult<()> {
         let mask = self.current_mask(h)?;
-        let toks: Vec<TokenId> = picks
-            .iter()
-            .filter_map(|p| self.resolve_pick(mask.as_ref(), p))
-            .collect();
+        let group = self.mirror_group(h);
+        // forced bytes as seen by the group's Rust member (the C matcher cannot report them)
+        let mut forced: Vec<u8> = vec![];
+        if picks.iter().any(|p| matches!(p, Pick::ForcedSplit(_))) {
+            for g in &group {
+                if let Some(Slot { h: H::M(m @ MH::R(_)), failed: None, .. }) = self.slots.get_mut(g) {
+                    if !m.is_stopped() {
+                        forced = m.compute_ff_bytes().unwrap_or_default();
+                    }
+                    break;
+                }
+            }
+        }
+        let mut fpos = 0usize;
+        let mut toks: Vec<TokenId> = vec![];
+        for p in picks {
+            if let Pick::ForcedSplit(r) = p {
+                let rest = &forced[fpos.min(forced.len())..];
+                if rest.is_empty() {
+                    continue;
+                }
+                let cands: Vec<u32> = (0..self.ctx.n_vocab() as u32)
+                    .filter(|t| {
+                        let w = self.ctx.tok_bytes(*t);
+                        !w.is_empty() && w[0] != 0xff && rest.starts_with(w)
+                    })
+                    .collect();
+                if cands.is_empty() {
+                    continue;
+                }
+                let t = cands[(*r % cands.len() as u64) as usize];
+                fpos += self.ctx.tok_bytes(t).len();
+                toks.push(t);
+                self.stats.probe("validate_forced_split_token");
+            } else if let Some(t) = self.resolve_pick(mask.as_ref(), p) {
+                toks.push(t);
+            }
+        }
         let nv = self.ctx.n_vocab() as u32;
         let legal = toks.iter().all(|t| *t < nv);
         let s = match self.slots.get_mut(&h) {
@@ -1207,6 +1245,7 @@ impl<'a> Exec<'a> {
             None => return Ok(()),
         };
         let failed = s.failed.is_some();
+        let hist = s.hist.clone();
         let r = match &mut s.h {
             H::M(m) => m.validate_tokens(&toks),
             _ => return Ok(()),
@@ -1221,6 +1260,25 @@ impl<'a> Exec<'a> {
                     ));
                 }
                 self.ev(format!("validate h{h} n={} -> {n}", toks.len()));
+                // mirrors (Rust / C twins, sliced / unsliced engines) agree on validation counts
+                if group.len() > 1 && self.fault_free() {
+                    let key = (hist.clone(), toks.clone());
+                    for g in &group {
+                        if *g == h {
+                            continue;
+                        }
+                        if let Some((k, n2)) = self.last_validate.get(g) {
+                            if *k == key && *n2 != n {
+                                return Err(self.viol(
+                                    "mirror_equivalence",
+                                    "mirror_differs:validate_count",
+                                    format!("after {:?}: validate_tokens({:?}) = {n} on h{h} but {n2} on h{g}", hist, toks),
+                                ));
+                            }
+                        }
+                    }
+                    self.last_validate.insert(h, (key, n));
+                }
                 Ok(())
             }
             Err(e) => {
